@@ -38,13 +38,22 @@ import (
 type c19Req struct{ n int }
 
 func (r *c19Req) ItemsCount() int { return r.n }
-func (r *c19Req) MergeSplit(_ context.Context, max int, _ request.SizerType, r2 request.Request) ([]request.Request, error) {
+// c19WSizer: a size-weighted sizer (like bytes): 10 per item plus 5 per request, so that a chunk cut to fit max_size is
+// usually a little BELOW it
+type c19WSizer struct{}
+
+func (c19WSizer) Sizeof(r request.Request) int64 { return int64(10*r.(*c19Req).n + 5) }
+
+func (r *c19Req) MergeSplit(_ context.Context, max int, szt request.SizerType, r2 request.Request) ([]request.Request, error) {
 	if r2 != nil {
 		r.n += r2.(*c19Req).n
 		r2.(*c19Req).n = 0
 	}
 	if max == 0 {
 		return []request.Request{r}, nil
+	}
+	if szt == request.SizerTypeBytes {
+		max = (max - 5) / 10 // items that fit one chunk under the weighted sizer
 	}
 	var out []request.Request
 	for r.n > max {
@@ -224,6 +233,10 @@ func c19Body(c *c19Case, o *c19Obs) func() {
 			switch {
 			case strings.HasPrefix(c.Config, "queue1"):
 				qc.QueueSize = 1
+			case strings.HasPrefix(c.Config, "queue+wbatch"):
+				// size-weighted sizer, min_size just below max_size: a chunk of 3 items weighs 35
+				qc.QueueSize, qc.Sizer = 1000, request.SizerTypeBytes
+				qc.Batch = &queuebatch.BatchConfig{FlushTimeout: time.Hour, MinSize: 38, MaxSize: 39}
 			case strings.HasPrefix(c.Config, "queue+batch"):
 				qc.QueueSize, qc.Sizer = 100, request.SizerTypeItems
 				qc.Batch = &queuebatch.BatchConfig{FlushTimeout: time.Hour, MinSize: 2, MaxSize: 3}
@@ -232,7 +245,8 @@ func c19Body(c *c19Case, o *c19Obs) func() {
 			}
 			capacity = qc.QueueSize
 			opts = append(opts, WithQueueBatch(qc, QueueBatchSettings[request.Request]{Encoding: c19Enc{}, Sizers: map[request.SizerType]request.Sizer[request.Request]{
-				request.SizerTypeRequests: request.RequestsSizer[request.Request]{}, request.SizerTypeItems: request.NewItemsSizer()}}))
+				request.SizerTypeRequests: request.RequestsSizer[request.Request]{}, request.SizerTypeItems: request.NewItemsSizer(),
+				request.SizerTypeBytes: c19WSizer{}}}))
 		}
 		be, err := NewBaseExporter(set, c19Sig(c.Signal), backend, opts...)
 		if err != nil {
@@ -352,7 +366,7 @@ func TestVerifC19(t *testing.T) {
 		return
 	}
 	outAlpha := []string{"ok", "transient", "permanent", "partial"}
-	configs := []string{"noqueue", "noqueue+retry", "queue10", "queue1+retry", "queue1+cancelled-caller", "queue+batch", "queue+batch+retry", "persistent+retry"}
+	configs := []string{"noqueue", "noqueue+retry", "queue10", "queue1+retry", "queue1+cancelled-caller", "queue+batch", "queue+batch+retry", "queue+wbatch", "persistent+retry"}
 	sizes := []int{1, 2, 5}
 	bound := ctx.Param("bound", 0)
 	maxReq := ctx.Param("requests", 2)
